@@ -1735,10 +1735,20 @@ impl Evaluator {
         match self.context.first_context_data().unwrap().parms().scheme() {
             SchemeType::BFV | SchemeType::BGV => 
                 panic!("[Invalid argument] Rescale is only supported for CKKS scheme"),
-            SchemeType::CKKS => 
-                while encrypted.parms_id() != parms_id {
-                    self.mod_switch_scale_to_next_internal(encrypted, destination);
-                },
+            SchemeType::CKKS => {
+                // `encrypted` is immutable: step down on a working copy until the target level is reached
+                let target_context_data = self.get_context_data(parms_id);
+                if self.get_context_data(encrypted.parms_id()).chain_index() < target_context_data.chain_index() {
+                    panic!("[Invalid argument] Cannot rescale to a higher level");
+                }
+                let mut current = encrypted.clone();
+                while current.parms_id() != parms_id {
+                    let mut next = Ciphertext::new();
+                    self.mod_switch_scale_to_next_internal(&current, &mut next);
+                    current = next;
+                }
+                *destination = current;
+            },
             _ => panic!("[Invalid argument] Unsupported scheme")
         }
     }
